@@ -13,6 +13,9 @@ type stackSys struct {
 	s    *stack.Stack[int]
 	l    *stack.LStack[int]
 	hasN int
+	// bulk runs: Search probes only at the steps probeAt selects (the model's cost per probe is linear)
+	probeAt func(step int) bool
+	step    int
 }
 
 func (s *stackSys) size() int {
@@ -57,7 +60,12 @@ func (s *stackSys) Do(o tt.Op) tt.Res {
 }
 
 func (s *stackSys) Proj() any {
-	p := queueProj{Has: make([]bool, s.hasN)}
+	n := s.hasN
+	s.step++
+	if s.probeAt != nil && !s.probeAt(s.step) {
+		n = 0
+	}
+	p := queueProj{Has: make([]bool, n)}
 	p.PP = tt.Safe(func() {
 		p.Size = s.size()
 		if s.s != nil {
@@ -65,7 +73,7 @@ func (s *stackSys) Proj() any {
 		} else {
 			p.Peek = s.l.Peek()
 		}
-		for v := 0; v < s.hasN; v++ {
+		for v := 0; v < n; v++ {
 			if s.s != nil {
 				p.Has[v] = s.s.Search(v)
 			} else {
@@ -128,12 +136,14 @@ func stackLinear(cfg Config, file string, runs, steps int) (int, error) {
 		})
 	}
 	// bulk runs: grow far past the usual thresholds (256, 1024), empty completely, refill
-	bulk := 1500
+	// 4200 > 4096; the fill never uses the values 0..5, the last three elements put in are 3, 4, 5:
+	// the projection then searches for values that occur exactly once, at the far end
+	bulk := 4200
 	if cfg.Tier == "thorough" {
-		bulk = 5000
+		bulk = 9000
 	}
 	for r := 0; r < 2; r++ {
-		s := &stackSys{hasN: hasN}
+		s := &stackSys{hasN: hasN, probeAt: func(st int) bool { return st%97 == 0 || (st >= bulk-1 && st <= bulk+3) }}
 		linked := r == 1
 		ls.Run(s, func(step int) (tt.Op, bool) {
 			switch {
@@ -141,8 +151,10 @@ func stackLinear(cfg Config, file string, runs, steps int) (int, error) {
 				return op("newl", 7), true
 			case step == 0:
 				return op("news"), true
+			case step <= bulk-3:
+				return op("push", 6+(step*7)%50), true
 			case step <= bulk:
-				return op("push", 1+(step*7)%50), true
+				return op("push", 3+step-(bulk-2)), true
 			case step <= bulk+bulk/2:
 				return op("pop"), true
 			case step <= bulk+bulk/2+20:
